@@ -19,6 +19,7 @@ pub async fn declaration(
     let uri = doc_params.text_document.uri.clone();
     if let Some(cursor) = super::doc_cursor(doc_params, doctx).await? {
         if let Some(ident) = &cursor.ident() {
+            let on_context_name = cursor.is_context_name(ident);
             let DocumentCursor { doc, context, .. } = cursor;
             if let Some(entry) = context {
                 match &entry {
@@ -46,7 +47,13 @@ pub async fn declaration(
                             global_table: Some(&doc.table),
                             local_table: Some(&p.local_table),
                         };
-                        if let Some(entry) = lookup_table.lookup(&ident.value) {
+                        let entry = if on_context_name {
+                            // the name of the procedure itself is not shadowed by its locals
+                            Some(Entry::Procedure(p))
+                        } else {
+                            lookup_table.lookup(&ident.value)
+                        };
+                        if let Some(entry) = entry {
                             // early return for default values
                             if entry.is_default() {
                                 return Ok(None);
@@ -88,6 +95,7 @@ pub async fn type_definition(
     let uri = doc_params.text_document.uri.clone();
     if let Some(cursor) = super::doc_cursor(doc_params, doctx).await? {
         if let Some(ident) = &cursor.ident() {
+            let on_context_name = cursor.is_context_name(ident);
             let DocumentCursor { doc, context, .. } = cursor;
             if let Some(entry) = context {
                 match &entry {
@@ -117,7 +125,13 @@ pub async fn type_definition(
                             global_table: Some(&doc.table),
                             local_table: Some(&p.local_table),
                         };
-                        if let Some(entry) = lookup_table.lookup(&ident.value) {
+                        let entry = if on_context_name {
+                            // the name of the procedure itself is not shadowed by its locals
+                            Some(Entry::Procedure(p))
+                        } else {
+                            lookup_table.lookup(&ident.value)
+                        };
+                        if let Some(entry) = entry {
                             match &entry {
                                 Entry::Type(t) => {
                                     // early return for int;
@@ -171,6 +185,7 @@ pub async fn implementation(
     let uri = doc_params.text_document.uri.clone();
     if let Some(cursor) = super::doc_cursor(doc_params, doctx).await? {
         if let Some(ident) = &cursor.ident() {
+            let on_context_name = cursor.is_context_name(ident);
             let DocumentCursor { doc, context, .. } = cursor;
             if let Some(entry) = context {
                 match &entry {
@@ -179,7 +194,13 @@ pub async fn implementation(
                             global_table: Some(&doc.table),
                             local_table: Some(&p.local_table),
                         };
-                        if let Some(entry) = lookup_table.lookup(&ident.value) {
+                        let entry = if on_context_name {
+                            // the name of the procedure itself is not shadowed by its locals
+                            Some(Entry::Procedure(p))
+                        } else {
+                            lookup_table.lookup(&ident.value)
+                        };
+                        if let Some(entry) = entry {
                             // early return for default values
                             if entry.is_default() {
                                 return Ok(None);
